@@ -83,8 +83,25 @@ def run_case(stream, case):
 
 
 def _worker(args):
-    sname, case = args
-    return run_case(_STREAMS[sname], case)
+    sname, chunk = args
+    return [run_case(_STREAMS[sname], case) for case in chunk]
+
+
+def _parallel_results(pool, s, cases):
+    """Yields one result per case, in order.  Cases are sent in chunks; a chunk whose worker does not answer within its
+    watchdog budget (+ slack) is reported as timed out (the worker is abandoned), so a hung worker cannot hang the check."""
+    import concurrent.futures as cf
+    k = max(1, min(64, len(cases) // (NCPU * 4) or 1))
+    chunks = [cases[i:i + k] for i in range(0, len(cases), k)]
+    futs = [pool.submit(_worker, (s.name, ch)) for ch in chunks]
+    for ch, f in zip(chunks, futs):
+        try:
+            for r in f.result(timeout=len(ch) * s.timeout + 60):
+                yield r
+        except (cf.TimeoutError, cf.process.BrokenProcessPool, Exception) as e:
+            for _ in ch:
+                yield dict(ok=False, kind="oracle", clause="timeout", sig={"clause": "timeout", "stream": s.name},
+                           detail="worker gave no answer (%s)" % type(e).__name__, nontrivial=True, desc="worker_hang", wall=0.0)
 
 
 def case_key(case):
@@ -193,7 +210,7 @@ def run_property(modname, tier, seed, replay=None):
                 cases = load_corpus(pid, s.name) + list(s.gen(rng, tier))
             seen, nt_seen = set(), set()
             if pool is not None and s.parallel and len(cases) > 1:
-                results = pool.map(_worker, [(s.name, c) for c in cases], chunksize=max(1, min(64, len(cases) // (NCPU * 4) or 1)))
+                results = _parallel_results(pool, s, cases)
             else:
                 results = (run_case(s, c) for c in cases)
             fails = {}
@@ -251,7 +268,14 @@ def run_property(modname, tier, seed, replay=None):
                         violations.append(dict(stream=s.name, clause=r2["clause"], replay=path, found_input=False))
     finally:
         if pool is not None:
-            pool.shutdown(wait=True, cancel_futures=True)
+            # workers may be stuck in a hung case or hold children: do not wait for them
+            procs = list(getattr(pool, "_processes", {}).values())
+            pool.shutdown(wait=False, cancel_futures=True)
+            for pr in procs:
+                try:
+                    pr.kill()
+                except Exception:
+                    pass
 
     if proof_break and not any(v["found_input"] for v in violations):
         tgt = proof_break.get("target") or proof_break["stage"]
